@@ -113,6 +113,12 @@ void XmlAttribute::removeAttribute()
     xmlRemoveProp(mPimpl->mXmlAttributePtr);
 }
 
+void XmlAttribute::setValue(const std::string &value)
+{
+    xmlAttrPtr attribute = mPimpl->mXmlAttributePtr;
+    mPimpl->mXmlAttributePtr = xmlSetNsProp(attribute->parent, attribute->ns, attribute->name, reinterpret_cast<const xmlChar *>(value.c_str()));
+}
+
 void XmlAttribute::setNamespacePrefix(const std::string &prefix)
 {
     std::vector<xmlChar> buffer;
